@@ -92,6 +92,11 @@ async fn build_world(pool: SessionPoolConfig) -> Option<World> {
 
 /// one complete request through the SOCKS5 front-end: connect, echo, close, wait until the target side is gone
 async fn socks_request(w: &World, uniq: u32) -> Result<(), String> {
+    socks_request_timed(w, uniq).await.map(|_| ())
+}
+
+/// returns the instant at which the application side saw the end of the connection (before the settle time)
+async fn socks_request_timed(w: &World, uniq: u32) -> Result<tokio::time::Instant, String> {
     let ip = netkit::uniq_ip(55, uniq);
     let (mut s, code) = netkit::socks5_connect(&w.socks, &SocksDest::V4(ip, w.target_port), Duration::from_secs(20)).await?;
     if code != 0 {
@@ -109,8 +114,9 @@ async fn socks_request(w: &World, uniq: u32) -> Result<(), String> {
     let mut rest = Vec::new();
     let _ = tokio::time::timeout(Duration::from_secs(5), s.read_to_end(&mut rest)).await;
     drop(s);
+    let done = tokio::time::Instant::now();
     tokio::time::sleep(Duration::from_millis(SETTLE_MS.load(Ordering::SeqCst))).await; // let the front-end wind the request down
-    Ok(())
+    Ok(done)
 }
 
 async fn sequential(rep: &mut Report, n: u32, min_idle: usize) {
@@ -229,7 +235,7 @@ async fn sequential_with_pauses(rep: &mut Report, n: u32, min_idle: usize) {
 /// finishes later; a request that follows the long one within its idle timeout must reuse that session
 /// (a session released a moment ago is not expired, whatever its creation order)
 async fn overlap_then_sequential(rep: &mut Report, long_first: bool) {
-    let pool = SessionPoolConfig { check_interval: Duration::from_millis(150), idle_timeout: Duration::from_millis(900), min_idle_sessions: 0 };
+    let pool = SessionPoolConfig { check_interval: Duration::from_millis(150), idle_timeout: Duration::from_millis(1500), min_idle_sessions: 0 };
     let Some(w) = build_world(pool).await else {
         rep.inconclusive("cannot build world");
         return;
@@ -246,50 +252,69 @@ async fn overlap_then_sequential(rep: &mut Report, long_first: bool) {
                 if code != 0 {
                     return Err(format!("socks reply {code}"));
                 }
-                tokio::time::sleep(Duration::from_millis(1600)).await;
+                tokio::time::sleep(Duration::from_millis(800)).await;
                 s.write_all(b"long").await.map_err(|e| e.to_string())?;
                 let mut b = [0u8; 4];
                 tokio::time::timeout(Duration::from_secs(10), s.read_exact(&mut b)).await.map_err(|_| "echo timeout".to_string())?.map_err(|e| e.to_string())?;
                 s.shutdown().await.map_err(|e| e.to_string())?;
                 let mut rest = Vec::new();
                 let _ = tokio::time::timeout(Duration::from_secs(5), s.read_to_end(&mut rest)).await;
-                Ok::<(), String>(())
+                Ok::<tokio::time::Instant, String>(tokio::time::Instant::now())
             }
         }
     };
-    let (a, b) = if long_first {
+    // the short request runs while the long one is open and finishes first
+    let t_short_done;
+    let a = if long_first {
         let l = tokio::spawn(long());
         tokio::time::sleep(Duration::from_millis(100)).await;
-        let sres = socks_request(&w, 6001).await;
-        (l.await.unwrap_or(Err("join".into())), sres)
+        let sres = socks_request_timed(&w, 6001).await;
+        let Ok(t) = sres else {
+            rep.inconclusive(format!("short request: {:?}", sres));
+            return;
+        };
+        t_short_done = t;
+        l.await.unwrap_or(Err("join".into()))
     } else {
-        let w2 = w.clone();
-        let sh = tokio::spawn(async move {
-            tokio::time::sleep(Duration::from_millis(100)).await;
-            tokio::spawn(long()).await.unwrap_or(Err("join".into()))
-        });
-        let sres = socks_request(&w2, 6002).await;
-        (sh.await.unwrap_or(Err("join".into())), sres)
+        let l = {
+            let f = long();
+            tokio::spawn(async move {
+                tokio::time::sleep(Duration::from_millis(30)).await;
+                f.await
+            })
+        };
+        let sres = socks_request_timed(&w, 6002).await;
+        let Ok(t) = sres else {
+            rep.inconclusive(format!("short request: {:?}", sres));
+            return;
+        };
+        t_short_done = t;
+        l.await.unwrap_or(Err("join".into()))
     };
-    if a.is_err() || b.is_err() {
-        rep.inconclusive(format!("overlap history: {:?} {:?}", a, b));
+    let Ok(t_long_done) = a else {
+        rep.inconclusive(format!("long request: {:?}", a));
+        return;
+    };
+    let dials_before = w.relay.accepted.load(Ordering::SeqCst);
+    // wait until the short request's session has expired and a reaper tick has passed (the long request's
+    // session, released later, is still well inside its idle timeout), then issue the follow-up
+    tokio::time::sleep_until(t_short_done + Duration::from_millis(1500 + 320)).await;
+    let idle_for = tokio::time::Instant::now().duration_since(t_long_done);
+    if idle_for > Duration::from_millis(1500 - 250) {
+        rep.inconclusive(format!("overlap history ran too slowly to be judged (long request's session idle for {:?})", idle_for));
         return;
     }
-    let dials_before = w.relay.accepted.load(Ordering::SeqCst);
-    // the long request finished just now (its session was released a moment ago): two reaper ticks later,
-    // still well inside idle_timeout, the next request must find that session
-    tokio::time::sleep(Duration::from_millis(350)).await;
     if let Err(e) = socks_request(&w, 6003).await {
         rep.inconclusive(format!("follow-up request: {e}"));
         return;
     }
     let dials_after = w.relay.accepted.load(Ordering::SeqCst);
     rep.add("overlap_then_sequential_histories", 1);
-    let case = json!({"kind": "c13-overlap-then-sequential", "long_request_started_first": long_first, "min_idle": 0, "idle_timeout_ms": 900, "check_interval_ms": 150, "tls_connections_before_followup": dials_before, "after": dials_after});
+    let case = json!({"kind": "c13-overlap-then-sequential", "long_request_started_first": long_first, "min_idle": 0, "idle_timeout_ms": 1500, "check_interval_ms": 150, "tls_connections_before_followup": dials_before, "after": dials_after});
     rep.case(Some(hash_str(&case.to_string())));
     rep.sample(case.clone());
     if dials_after > dials_before {
-        rep.violate("reuse", "overlap_then_sequential+min_idle0", "non_overlapping_request_redialled", format!("two overlapping requests (the short one's session expired meanwhile), then the long one finished; a request 350 ms later (idle_timeout 900 ms) opened a new TLS connection ({dials_before} -> {dials_after}) although the long request's session had just been released"), case);
+        rep.violate("reuse", "overlap_then_sequential+min_idle0", "non_overlapping_request_redialled", format!("two overlapping requests (the short one's session expired meanwhile), then the long one finished; a request shortly after the short one's session expired (idle_timeout 1500 ms; the long one's session was idle for less than 1.25 s) opened a new TLS connection ({dials_before} -> {dials_after}) although the long request's session had just been released"), case);
     }
     w.client.stop_session_pool_cleanup().await;
 }
@@ -459,7 +484,7 @@ pub fn run_c12_client_level(ctx: Ctx) -> Report {
 pub fn meta() -> CheckMeta {
     CheckMeta {
         level: "exploration",
-        rule: "real Client + SOCKS5 front-end + Server over loopback TLS behind a TCP relay that counts TLS connections (accepted, open, peak). Sequential histories of 3-200 complete requests (connect, echo, application closes, target closes, front-end winds down) with min_idle in {0,1,2,5}: the number of TLS connections after each request is recorded; every request after the first must be served without a new connection, and at the end at most 1 + min_idle connections may be open. Paused histories: 4-10 sequential requests separated by 750 ms with idle_timeout 400 ms / check_interval 200 ms and min_idle >= 1 (the reaper must keep a session, so still 1 connection). Failure histories: 8-40 sequential requests of which every second one goes to a closed port (a refused open must not cost the session). Overlap histories (min_idle 0, idle_timeout 900 ms, check_interval 150 ms): a long and a short request overlap, the short one's session expires, the long one finishes, and a request 350 ms later must reuse its session. Bursty histories: rounds of k in {2,4,8,16} concurrent requests, each round after the previous one finished: at most k connections in total, at most k+1 open. The reaper and keep-alive are effectively off (3600 s) so that only reuse is observed. distinct_nontrivial = distinct histories.".into(),
+        rule: "real Client + SOCKS5 front-end + Server over loopback TLS behind a TCP relay that counts TLS connections (accepted, open, peak). Sequential histories of 3-200 complete requests (connect, echo, application closes, target closes, front-end winds down) with min_idle in {0,1,2,5}: the number of TLS connections after each request is recorded; every request after the first must be served without a new connection, and at the end at most 1 + min_idle connections may be open. Paused histories: 4-10 sequential requests separated by 750 ms with idle_timeout 400 ms / check_interval 200 ms and min_idle >= 1 (the reaper must keep a session, so still 1 connection). Failure histories: 8-40 sequential requests of which every second one goes to a closed port (a refused open must not cost the session). Overlap histories (min_idle 0, idle_timeout 1500 ms, check_interval 150 ms): a long and a short request overlap, the short one finishes first and its session expires while the long one's session (released later, either creation order) is still fresh; the follow-up request must reuse it. Bursty histories: rounds of k in {2,4,8,16} concurrent requests, each round after the previous one finished: at most k connections in total, at most k+1 open. The reaper and keep-alive are effectively off (3600 s) so that only reuse is observed. distinct_nontrivial = distinct histories.".into(),
         assumptions: vec!["a request counts as finished once the application socket saw end of stream and 60 ms have passed".into(), "healthy session: the server and relay stay up for the whole history".into()],
         floors: vec![("sequential_requests", 15), ("burst_rounds", 3), ("paused_sequential_requests", 4), ("sequential_requests_with_failures", 8), ("overlap_then_sequential_histories", 2)],
         exhaustive: false,
